@@ -36,6 +36,7 @@ type Solver struct {
 	ErrLines               []string
 	paths                  int
 	inScope                bool
+	Logic                  string // optional (set-logic ...) sent at start and after every reset
 	lib                    *z3lib // in-process backend (Cmd[0] == "libz3")
 	buf                    strings.Builder
 	pendingOut             string
@@ -50,7 +51,11 @@ func (s *Solver) Version() string {
 }
 
 func NewSolver(cmd []string, timeoutMs int) (*Solver, error) {
-	s := &Solver{Cmd: cmd, TimeoutMs: timeoutMs}
+	return NewSolverLogic(cmd, timeoutMs, "")
+}
+
+func NewSolverLogic(cmd []string, timeoutMs int, logic string) (*Solver, error) {
+	s := &Solver{Cmd: cmd, TimeoutMs: timeoutMs, Logic: logic}
 	if err := s.start(); err != nil {
 		return nil, err
 	}
@@ -64,6 +69,9 @@ func (s *Solver) start() error {
 		s.send("(set-option :print-success false)\n")
 		s.send(fmt.Sprintf("(set-option :timeout %d)\n", s.TimeoutMs))
 		s.send("(set-option :produce-models true)\n")
+		if s.Logic != "" {
+			s.send("(set-logic " + s.Logic + ")\n")
+		}
 		return nil
 	}
 	s.cmd = exec.Command(s.Cmd[0], s.Cmd[1:]...)
@@ -138,6 +146,9 @@ func (s *Solver) Reset() {
 			s.send(fmt.Sprintf("(set-option :timeout %d)\n", s.TimeoutMs))
 		}
 		s.send("(set-option :produce-models true)\n")
+		if s.Logic != "" {
+			s.send("(set-logic " + s.Logic + ")\n")
+		}
 	}
 	s.send("(push 1)\n")
 	s.inScope = true
